@@ -56,6 +56,11 @@ class AsyncioRunner(BaseRunner):
             raise
         except BaseException as e:  # noqa: B036
             failure = e
+            if isinstance(e, StopIteration):
+                # raised by the call of a plain callable: StopIteration cannot be set
+                # on a Future nor raised out of a coroutine
+                failure = RuntimeError("payload raised StopIteration")
+                failure.__cause__ = e
         else:
             if result is None:
                 return
